@@ -10,7 +10,8 @@
    loop ticks, operator commands and callback returns (ok / error, any outstanding callback, any
    moment).  Guards are booleans evaluated along the same run ([run_ok]). *)
 From Coq Require Import NArith List.
-From Verif Require Import Base.Check Model.Failover Model.FailoverSpec Proofs.FailoverProofs.
+From Verif Require Import Base.Check Model.HealthHyst Model.Failover Model.FailoverSpec
+  Proofs.HealthHystProofs Proofs.FailoverProofs Proofs.FailoverHistory.
 Import ListNotations.
 Local Open Scope N_scope.
 
@@ -18,7 +19,8 @@ Local Open Scope N_scope.
 Definition C14_clause (k : N) : Prop :=
   forall c evs, monitor (only k) c (init c) (sinit c) evs = None.
 Definition C14_statement : Prop :=
-  C14_clause 0 /\ C14_clause 1 /\ C14_clause 2 /\ C14_clause 3 /\ C14_clause 4 /\ C14_clause 5.
+  C14_clause 0 /\ C14_clause 1 /\ C14_clause 2 /\ C14_clause 3 /\ C14_clause 4 /\ C14_clause 5 /\
+  C14_clause 6.
 
 (* (0) the reported role changes only at a step where a role-change callback returned nil, and
    becomes that callback's newRole — full, stale timers and overlapping executions included *)
@@ -50,9 +52,62 @@ Qed.
 Print Assumptions C14_failback_completes_healthy_refuted.
 
 Theorem C14_failback_completes_healthy_partial : forall c evs,
-  run_ok quiet_fb c (init c) evs = true -> monitor (only 5) c (init c) (sinit c) evs = None.
+  run_ok (quiet_fb c) c (init c) evs = true -> monitor (only 5) c (init c) (sinit c) evs = None.
 Proof. exact mon_failback_completes_healthy_partial. Qed.
 Print Assumptions C14_failback_completes_healthy_partial.
+
+(* (6) sustained FAILURE: the health monitor (recordFailure / recordSuccess, inside the Model) reports
+   the partner down only at a failed check that completes >= FailureThreshold consecutive failed
+   checks, and healthy again only at a successful check that completes >= RecoveryThreshold
+   consecutive successes — for every sequence of check results interleaved with every other event,
+   every pair of thresholds.  "Reported down / healthy" in clauses 1, 2 and 5 is the monitor's own
+   hysteresis over the check results (Model/HealthHyst.v), so those clauses are statements about the
+   check results, not about the implementation's flag — full *)
+Theorem C14_partner_down_only_after_threshold : C14_clause 6.
+Proof. exact mon_health_report_sound. Qed.
+Print Assumptions C14_partner_down_only_after_threshold.
+
+(* the same without the trace monitor, over histories.  [checks evs] = the results of the health checks
+   in the history (false = failed), [trail b l] = length of the trailing run of b in l.
+   The health monitor inside the Model is the documented hysteresis over the check results, whatever
+   else happens in between ... *)
+Theorem C14_model_health_is_hysteresis : forall c evs,
+  hy (run c (init c) evs) = hyst_run (c_fthr c) (c_rthr c) hyst0 (checks evs).
+Proof. exact model_health_is_hysteresis. Qed.
+Print Assumptions C14_model_health_is_hysteresis.
+
+(* ... ConsecutiveFailures / ConsecutiveSuccesses are the trailing runs of the check history (a
+   successful check ends the failure streak, a failed one the success streak) ... *)
+Theorem C14_counters_are_trailing_runs : forall c evs,
+  h_cf (run c (init c) evs) = trail false (checks evs) /\
+  h_cs (run c (init c) evs) = trail true (checks evs).
+Proof. exact counters_are_trailing_runs. Qed.
+Print Assumptions C14_counters_are_trailing_runs.
+
+(* ... the partner is reported down only at a failed check that completes >= FailureThreshold
+   consecutive failed checks, reported healthy again only at a successful check that completes
+   >= RecoveryThreshold consecutive successful ones ... *)
+Theorem C14_partner_down_needs_consecutive_failures : forall c evs e,
+  healthy (run c (init c) evs) = true -> healthy (run c (init c) (evs ++ [e])) = false ->
+  e = Down /\ c_fthr c <= trail false (checks (evs ++ [e])) /\ 1 <= trail false (checks (evs ++ [e])).
+Proof. exact partner_down_only_after_threshold. Qed.
+Print Assumptions C14_partner_down_needs_consecutive_failures.
+
+Theorem C14_partner_up_needs_consecutive_successes : forall c evs e,
+  healthy (run c (init c) evs) = false -> healthy (run c (init c) (evs ++ [e])) = true ->
+  e = Up /\ c_rthr c <= trail true (checks (evs ++ [e])) /\ 1 <= trail true (checks (evs ++ [e])).
+Proof. exact partner_up_only_after_threshold. Qed.
+Print Assumptions C14_partner_up_needs_consecutive_successes.
+
+(* ... and it is reported down EXACTLY when the check history splits into a part that ends with
+   >= max FailureThreshold 1 consecutive failures and a rest that contains no max RecoveryThreshold 1
+   consecutive successes *)
+Theorem C14_partner_down_iff : forall c evs,
+  healthy (run c (init c) evs) = false <->
+  exists a b, checks evs = a ++ b /\ c_fthr c <= trail false a /\ 1 <= trail false a /\
+              quiet (c_rthr c) b.
+Proof. exact partner_down_iff. Qed.
+Print Assumptions C14_partner_down_iff.
 
 (* (2) a timer-started failover execution starts only if the partner has been reported down without
    interruption for the configured delay (so a recovery before that cancels the promotion):
@@ -69,6 +124,34 @@ Proof.
   intros H. destruct sustained_down_refuted as (c & evs & E). rewrite (H c evs) in E. discriminate.
 Qed.
 Print Assumptions C14_promotion_requires_sustained_down_refuted.
+
+(* (2), composition of monitor and controller in history form, timer-atomic semantics: whenever the
+   failover timer's function starts an execution after the history evs, then evs = pre ++ Down :: post
+   where that failed check completed >= FailureThreshold consecutive failed checks of a partner reported
+   healthy until then, the partner has been reported down after every single event since (no
+   RecoveryThreshold consecutive successes, by C14_partner_down_iff), and at least the failover delay of
+   model time has elapsed since that check.  (Outside the guard: K14b.) *)
+Theorem C14_promotion_needs_sustained_check_failure : forall c evs,
+  run_ok not_stale c (init c) evs = true ->
+  o_cb (obs c (run c (init c) evs) FireFO) <> None ->
+  exists pre post, evs = pre ++ Down :: post /\
+    healthy (run c (init c) pre) = true /\
+    c_fthr c <= trail false (checks (pre ++ [Down])) /\ 1 <= trail false (checks (pre ++ [Down])) /\
+    (forall k, healthy (run c (init c) (pre ++ Down :: firstn k post)) = false) /\
+    c_delay c <= elapsed post.
+Proof. exact promotion_needs_sustained_check_failure. Qed.
+Print Assumptions C14_promotion_needs_sustained_check_failure.
+
+(* non-vacuity (thresholds 3 / 2): F F S F F does not take the partner down, the sixth check does; one
+   success in between does not bring it back; the timer promotes after the delay; the complete monitor
+   accepts the run *)
+Example C14_flapping_partner_promotes_only_after_three_in_a_row :
+  run_ok not_stale cfg32 (init cfg32) h_flap = true /\
+  o_cb (obs cfg32 (run cfg32 (init cfg32) h_flap) FireFO) = Some Active /\
+  healthy (run cfg32 (init cfg32) [Down; Down; Up; Down; Down]) = true /\
+  healthy (run cfg32 (init cfg32) [Down; Down; Up; Down; Down; Down]) = false /\
+  monitor (fun _ => true) cfg32 (init cfg32) (sinit cfg32) (h_flap ++ [FireFO; CbReturn 0 true]) = None.
+Proof. exact h_flap_promotes. Qed.
 
 (* (3) exactly one "completed" event per promotion (and none without one): holds while at most one
    role-change callback is outstanding at a time ... *)
